@@ -2,6 +2,7 @@ package main
 
 import (
 	"flag"
+	"time"
 
 	"fmt"
 	"github.com/btcsuite/btclog"
@@ -20,6 +21,9 @@ func main() {
 	seed := flag.Int("seed", 1, "VERIF_SEED")
 	every := flag.Int("every", 1, "replay every n-th behaviour")
 	offset := flag.Int("offset", 0, "sampling offset")
+	grace := flag.Duration("grace", 250*time.Millisecond, "race-addr: how long caller B may stay blocked before A is released")
+	stress := flag.Int("stress", 4, "race-addr: free-running stress rounds")
+	traceOut := flag.String("traceout", "", "race-addr: where to write the recorded events")
 	flag.Parse()
 	if os.Getenv("VERIF_WALLET_LOG") != "" {
 		backend := btclog.NewBackend(os.Stderr)
@@ -41,6 +45,15 @@ func main() {
 		"C16": "non-trivial = distinct usage patterns (window, lock state, used addresses, unspent outputs) recovered and compared, distinct invalid-child sets driven through BranchRecoveryState, and distinct (timestamp sequence, birthday) pairs with a payable block",
 		"C15": "non-trivial = distinct (backend chain of block ids, wallet transaction placement, last operation) quiescent states of a running wallet that were compared",
 	}[*prop]
+	if *spec == "race-addr" {
+		rep.Rule = "non-trivial = distinct ordered pairs of issuing call sites driven through the gate at the commit callback, plus stress rounds"
+		runRace(*seed, root, *grace, *stress, *traceOut, rep)
+		if err := rep.Write(*out); err != nil {
+			fmt.Fprintln(os.Stderr, err)
+			os.Exit(2)
+		}
+		return
+	}
 	err = common.ForEachLine(*in, *workers, func(idx int, line []byte) {
 		if (idx+*offset)%*every != 0 {
 			return
